@@ -5,10 +5,10 @@ open Scenic.Overrides
 /-- `Simulation.__init__` (order of the `finally` block, `self.agents` before the `try`),
     `DynamicScenario._override` (merge of old values) and `DynamicScenario._stop` (forgets reverted overrides) -/
 def simCfg : Cfg :=
-  { order := [.destroy, .disableProxies, .stopBehaviors, .stopScenarios, .endSimulation],
+  { order := [.destroy, .stopScenarios, .stopBehaviors, .disableProxies, .endSimulation],
     merge := .keepOldest,
-    stopClears := false,
-    agentsEarly := false }
+    stopClears := true,
+    agentsEarly := true }
 /-- `DynamicScenario._stop` stops its sub-scenarios before it reverts its own overrides -/
 def subsStoppedBeforeRevert : Bool := true
 /-- `Simulation._createObject` registers the object and enables its proxy before calling the simulator -/
